@@ -912,6 +912,24 @@ fn h_access(addr: usize) {
     if in_harness() {
         return;
     }
+    // scheduling point (sim-threads): also inside an instruction, wherever the interpreter
+    // dereferences a heap value (formatting, comparing, copying, marking)
+    let sched = CTX
+        .try_with(|c| match c.try_borrow() {
+            Ok(ctx) if ctx.active => ctx.sched.clone().map(|s| (s, ctx.thread_id)),
+            _ => None,
+        })
+        .ok()
+        .flatten();
+    if let Some((s, tid)) = sched {
+        if s.maybe_switch(tid) {
+            let _ = CTX.try_with(|c| {
+                if let Ok(mut ctx) = c.try_borrow_mut() {
+                    ctx.stats.switches += 1;
+                }
+            });
+        }
+    }
     let _ = CTX.try_with(|c| {
         let mut ctx = match c.try_borrow_mut() {
             Ok(c) => c,
